@@ -30,6 +30,8 @@ def run(chk):
     chk.rule("R14.2", "every method that may change cell, space group or asymmetric unit invalidates every memo afterwards", 2)
     chk.rule("R14.3", "every other method leaves the state fields and the payload of memoised objects untouched", 50)
     chk.rule("R14.4", "memoised values depend only on the three state fields", 4)
+    chk.rule("R14.6", "repeating a query returns an equal result: no query returns an array allocated with np.empty that is only filled at "
+                      "data-dependent positions (an entry no datum addresses is uninitialised memory)", 1)
     chk.rule("R14.5", "an exported CIF built from the cached dictionary refreshes every state-derived key", 8)
     fx = Effects(repo, ATTR_TYPES)
     methods = [m for m in cr.methods("Crystal")]
@@ -55,6 +57,8 @@ def run(chk):
         r14_4(chk, cr, methods, memos)
     if chk.want("R14.5"):
         r14_5(chk, cr, mutators, fx)
+    if chk.want("R14.6"):
+        r14_6(chk, cr, methods)
     chk.assume("aliasing through objects the caller keeps (mutating crystal.unit_cell from outside) is not decided")
     chk.assume("queries are always issued with the same arguments (the property excludes argument-dependent memo staleness)")
 
@@ -346,3 +350,50 @@ def r14_5(chk, cr, mutators, fx):
         chk.ob("R14.5", CR, q, f"state-derived key '{k}' is refreshed when the cached CIF dictionary is reused "
                "(or every mutator drops the cached dictionary)", k in reuse_keys or dropped, fingerprint=f"cif:{k}",
                expected="refreshed in the reuse branch", found=f"refreshed keys: {sorted(reuse_keys)}")
+    # items of the source CIF that are functions of the structure but are not among the refreshed keys (_cell_volume,
+    # _cell_formula_units_Z, the Hermann-Mauguin symbol, ...) go stale after a state change unless they are filtered out
+    src = ast.unparse(cr.func(q))
+    filtered = any(w in src for w in ("startswith(", "STRUCTURE_", "not in current", "pop(")) and "cif_data" in src
+    chk.ob("R14.5", CR, q, "a reused CIF dictionary keeps no structure-derived item that is not refreshed (cell_*, symmetry_*, space_group_* of the "
+           "source file), or every mutator drops the cached dictionary", dropped or filtered, fingerprint="cif-stale-derived",
+           expected="items with a structure prefix are dropped or recomputed before the update", found="cif_data.update(current) on the complete source dictionary")
+
+
+# ------------------------------------------------------------------------------------------------ R14.6
+def r14_6(chk, cr, methods):
+    from ..symex import obj_init
+    n = 0
+    for fn in methods:
+        if not any(isinstance(x, ast.Attribute) and x.attr in ("empty", "empty_like") for x in ast.walk(fn)):
+            continue
+        ev = Ev(fn, cr.ctx).run()
+        for r in ev.returns:
+            if r.value is None:
+                continue
+            for a in find_atoms(r.value, lambda a: a[0] == "obj"):
+                init = a[3].as_atom()
+                if not (init and init[0] == "call" and call_name(init) in ("numpy.empty", "numpy.empty_like")):
+                    continue
+                n += 1
+                me = P.atom(a).key()
+                full = False
+                scattered = []
+                for e in ev.events:
+                    if e.kind not in ("store", "aug"):
+                        continue
+                    t = e.target.as_atom()
+                    if not (t and t[0] == "sub" and t[1].key() == me):
+                        continue
+                    idx = t[2][0]
+                    ia = idx.as_atom()
+                    if ia and ia[0] == "slice" and ia[1].key() == "None" and ia[2].key() == "None":
+                        full = True
+                    elif ia and ia[0] == "lv" and any(l.kind in ("range", "enumerate") and l.index is not None and l.index.key() == idx.key() for l in e.loops):
+                        full = True          # a counting loop over the whole array (bounds are R-specific, not decided here)
+                    else:
+                        scattered.append(f"line {e.lineno}: {str(e.target)[:60]}")
+                chk.saw(CR, f"Crystal.{fn.name}")
+                chk.ob("R14.6", CR, f"Crystal.{fn.name}", "the returned np.empty array is written everywhere (a full-slice store or a counting loop), "
+                       "not only at positions taken from data", full or not scattered, node=fn, fingerprint=f"empty:{a[1]}",
+                       expected="numpy.zeros(...) or a store that covers every element", found=scattered[:2])
+    chk.ob("R14.6", CR, "Crystal", f"inventory: {n} returned np.empty buffers in the query methods", True, fingerprint="inventory", nontrivial=False)
